@@ -273,13 +273,13 @@ def write_first_access(cx, kind):
 
 
 @harness("C04", "hermitian_context_operator",
-         quick=[dict(exc=False), dict(exc=True)], thorough=[dict(exc=False), dict(exc=True)],
+         quick=[dict(exc=False), dict(exc=True), dict(exc=False, superop=True)], thorough=[dict(exc=False), dict(exc=True), dict(exc=False, superop=True), dict(exc=True, superop=True)],
          functions=FUNCS,
          bound="N=2: context of a COMPLEX Hermitian operator (e.g. a density matrix with complex coherences) given by "
                "its eigen-decomposition with a unitary S (Givens rotation times column phases); inside it is diagonal, "
                "tr(A rho) is invariant; everything is restored on exit (normal / exception)",
          out="N>=3 unitary families")
-def hermitian_context_operator(cx, exc):
+def hermitian_context_operator(cx, exc, superop=False):
     import quantarhei as qr
     from quantarhei.core.managers import Manager
     N = 2
@@ -289,6 +289,16 @@ def hermitian_context_operator(cx, exc):
         W = qr.qm.SelfAdjointOperator(dim=N, data=numpy.diag(numpy.arange(N, dtype=float)))
         rho = qr.ReducedDensityMatrix(dim=N)
         A = qr.qm.Operator(dim=N, real=False)
+        SO = qr.qm.SuperOperator(dim=N)
+    if superop:
+        R0 = cx.cplx_array("R", (N, N, N, N))
+        SO._data = R0.copy()
+        # a genuinely complex eigenbasis and a non-degenerate spectrum (so that every model replays with the same
+        # eigenvectors up to phases)
+        im = S[1, 1].imag
+        cx.assume((im >= 0.2) | (im <= -0.2) if cx.sym else abs(im) >= 0.2,
+                  "complex eigenvector phase: |Im S[1,1]| >= 0.2; level spacing >= 0.1")
+        cx.assume(w[1] - w[0] >= 0.1)
     W._data = W0.copy()
     rho0 = cx.hermitian("rho", N)
     A0 = cx.cplx_array("A", (N, N))
@@ -305,6 +315,12 @@ def hermitian_context_operator(cx, exc):
             cx.prove_eq("inside/W_diagonal", D, numpy.diag(w), tol=1e-7)
             cx.prove_eq("inside/tr_A_rho", numpy.trace(numpy.dot(A.data, rho.data)), tr_out, tol=1e-7)
             cx.prove_eq("inside/rho_rep", rho.data, numpy.dot(numpy.conj(Sx.T), numpy.dot(rho0, Sx)), tol=1e-7)
+            if superop:
+                # the action of a superoperator on a state is the transformed action
+                act_site = numpy.tensordot(R0, rho0)
+                act_in = numpy.tensordot(SO.data, rho.data)
+                cx.prove_eq("inside/superoperator_action", act_in,
+                            numpy.dot(numpy.conj(Sx.T), numpy.dot(act_site, Sx)), tol=1e-7)
             Z = cx.cplx_array("Z", (N, N))
             with cx.concrete():
                 B = qr.qm.Operator(dim=N, real=False)
@@ -316,6 +332,8 @@ def hermitian_context_operator(cx, exc):
         pass
     objs.update(created)
     check_restored(cx, "after", m, st0, objs)
+    if superop:
+        cx.prove_eq("after/superoperator_restored", SO._data, R0, tol=1e-7)
 
 
 @harness("C04", "transform_methods",
